@@ -145,6 +145,12 @@ func c17Leaked(res *vsched.Result) []string {
 // "dial-close"); with stopEarly a stopper calls Stop concurrently, otherwise the main
 // thread lets 21 s of virtual time pass (idle timeout 10 s), checks, and then stops.
 func c17Scenario(name string, max int, kinds []string, stopEarly bool) vScn {
+	return c17ScenarioGated(name, max, kinds, stopEarly, 0)
+}
+
+// c17ScenarioGated: as c17Scenario, but the stopper first waits until `gate` clients
+// have received a reply, so that Stop meets connections that are being served.
+func c17ScenarioGated(name string, max int, kinds []string, stopEarly bool, gate int) vScn {
 	const idle = 10 * time.Second
 	return vScn{name: name, horizon: 90 * time.Second, build: func() (func(), func(*vsched.Result) (string, []vScnBad)) {
 		var w *c17World
@@ -181,6 +187,7 @@ func c17Scenario(name string, max int, kinds []string, stopEarly bool) vScn {
 		root := func() {
 			w = c17New(max, idle)
 			done := vsched.NewChan[struct{}](len(kinds))
+			replied := vsched.NewChan[struct{}](len(kinds))
 			for i, kind := range kinds {
 				i, kind := i, kind
 				vsched.GoNamed(fmt.Sprintf("client%d", i), func() {
@@ -203,6 +210,7 @@ func c17Scenario(name string, max int, kinds []string, stopEarly bool) vScn {
 						outcome[fmt.Sprintf("c%d", i)] = "rpc-error"
 					default:
 						outcome[fmt.Sprintf("c%d", i)] = "served"
+						replied.SendNoPoint(struct{}{})
 					}
 					if kind == "call-close" {
 						c.closeClient()
@@ -211,6 +219,9 @@ func c17Scenario(name string, max int, kinds []string, stopEarly bool) vScn {
 			}
 			if stopEarly {
 				vsched.GoNamed("stopper", func() {
+					for g := 0; g < gate; g++ {
+						replied.Recv()
+					}
 					stopErr = w.srv.Stop()
 					afterStop("stopper")
 				})
@@ -454,6 +465,7 @@ func c17Scenarios(thorough bool) []vScn {
 		c17Scenario("max2-3clients-mixed", 2, []string{"call-close", "call-idle", "dial-close"}, false),
 		c17Scenario("max1-2clients-stop", 1, []string{"call-idle", "call-close"}, true),
 		c17Scenario("max2-2clients-stop", 2, []string{"call-idle", "call-idle"}, true),
+		c17ScenarioGated("max2-2clients-stop-after-1-reply", 2, []string{"call-idle", "call-idle"}, true, 1),
 	}
 	ops := []string{"Close", "Unexport", "Stop"}
 	for _, a := range ops {
@@ -467,6 +479,7 @@ func c17Scenarios(thorough bool) []vScn {
 	if thorough {
 		s = append(s, c17Scenario("max2-4clients-idle", 2, []string{"call-idle", "call-close", "call-idle", "dial-close"}, false),
 			c17Scenario("max2-3clients-stop", 2, []string{"call-idle", "call-close", "call-idle"}, true),
+			c17ScenarioGated("max2-3clients-stop-after-2-replies", 2, []string{"call-idle", "call-close", "call-idle"}, true, 2),
 			c17CloseScenario("race-Stop", []string{"Stop", "Close"}, true))
 	}
 	return s
